@@ -525,6 +525,21 @@ func c12NumberExponent(p *Prog) *RuleResult {
 			}
 		}
 	}
+	if strip == nil {
+		// the same stripping written with the library: strings.TrimRight(t, "0") / TrimSuffix / TrimFunc over '0'
+		eachInstr(fn, func(b *ssa.BasicBlock, in ssa.Instruction) {
+			c, ok := in.(*ssa.Call)
+			if !ok || len(c.Call.Args) < 2 {
+				return
+			}
+			switch calleeFullName(c) {
+			case "strings.TrimRight", "strings.TrimSuffix", "strings.Trim":
+				if s, ok := constString(c.Call.Args[1]); ok && strings.Contains(s, "0") && strip == nil {
+					strip = b
+				}
+			}
+		})
+	}
 	if !r.Anchor("the loop of mangleNumber that strips `0` bytes", strip != nil) {
 		return r
 	}
